@@ -1,6 +1,9 @@
 package sim
 
 import (
+	"fmt"
+	"reflect"
+
 	"github.com/mlange-42/arche/ecs"
 )
 
@@ -393,8 +396,7 @@ func (e *Engine) opRegType(c *cursor) *Violation {
 		}
 	}
 	if len(pending) == 0 {
-		e.St.Skipped++
-		return nil
+		return e.fillToLimit(c)
 	}
 	k := pending[0] // registration order is part of the plan (IDs are assigned densely)
 	if e.locked() {
@@ -417,7 +419,9 @@ func (e *Engine) opRegType(c *cursor) *Violation {
 		}
 		// the ledger must be unchanged (a filler may not have slipped in either)
 		if n := len(ecs.ComponentIDs(e.S.W)); n != nBefore {
-			return e.viol("registry", nil, "registration refused under lock, but ComponentIDs grew from %d to %d", nBefore, n)
+			v := e.viol("state-after-locked-call", nil, "registration refused under lock, but ComponentIDs grew from %d to %d", nBefore, n)
+			v.Also = append(v.Also, "registry")
+			return v
 		}
 		return override(e.checkAll(e.S, ""), "state-after-locked-call")
 	}
@@ -439,6 +443,91 @@ func (e *Engine) opRegType(c *cursor) *Violation {
 	}
 	if id%16 == 0 && id > 0 {
 		e.St.Probes["type-on-layout-chunk-border"]++
+	}
+	return nil
+}
+
+// fillToLimit (C16): once every planned type is registered, extra filler types are registered towards the limit of
+// MaskTotalBits; the registration beyond the limit must panic and leave the registry unchanged.
+func (e *Engine) fillToLimit(c *cursor) *Violation {
+	if !e.P.FillToLimit || e.locked() {
+		e.St.Skipped++
+		return nil
+	}
+	s := e.S
+	n := len(ecs.ComponentIDs(s.W))
+	batch := 1 + c.n(60)
+	for i := 0; i < batch && n < ecs.MaskTotalBits; i++ {
+		var msg string
+		func() {
+			defer func() {
+				if r := recover(); r != nil {
+					msg = fmt.Sprint(r)
+				}
+			}()
+			ecs.TypeID(s.W, FillerType(s.nextFill))
+		}()
+		if msg != "" {
+			return e.viol("registry", nil, "registering type number %d (limit %d) panicked: %s", n+1, ecs.MaskTotalBits, msg)
+		}
+		s.regOrder = append(s.regOrder, -1-s.nextFill)
+		s.nextFill++
+		n++
+		for _, sh := range e.Shadows {
+			if sh.Kind == "fresh" {
+				ecs.TypeID(sh.S.W, FillerType(sh.S.nextFill))
+				sh.S.regOrder = append(sh.S.regOrder, -1-sh.S.nextFill)
+				sh.S.nextFill++
+			}
+		}
+	}
+	e.St.Ops["regtype"]++
+	if n < ecs.MaskTotalBits {
+		return nil
+	}
+	// the registry is full: one more must be refused
+	e.St.Faults["type-limit"]++
+	refused := false
+	func() {
+		defer func() {
+			if r := recover(); r != nil {
+				refused = true
+			}
+		}()
+		ecs.TypeID(s.W, FillerType(100000+s.nextFill))
+	}()
+	if !refused {
+		return e.viol("type-limit", nil, "component type number %d was registered (limit %d)", ecs.MaskTotalBits+1, ecs.MaskTotalBits)
+	}
+	if got := len(ecs.ComponentIDs(s.W)); got != ecs.MaskTotalBits {
+		return e.viol("type-limit", nil, "after the refused registration ComponentIDs has %d entries", got)
+	}
+	if v := e.checkAll(s, ""); v != nil {
+		v.Also = append(v.Also, "type-limit")
+		return v
+	}
+	// resource registry: same limit, independent of the component registry
+	if c.n(3) == 0 {
+		for i := range s.ResIDs {
+			s.resID(i) // planned resource types first, the rest of the registry is filled with extras
+		}
+		have := len(ecs.ResourceIDs(s.W))
+		for i := have; i < ecs.MaskTotalBits; i++ {
+			ecs.ResourceTypeID(s.W, reflect.StructOf([]reflect.StructField{{Name: fmt.Sprintf("XR%d", i), Type: reflect.TypeOf(uint8(0))}}))
+		}
+		refused = false
+		func() {
+			defer func() {
+				if r := recover(); r != nil {
+					refused = true
+				}
+			}()
+			ecs.ResourceTypeID(s.W, reflect.StructOf([]reflect.StructField{{Name: "XRover", Type: reflect.TypeOf(uint8(0))}}))
+		}()
+		if !refused {
+			return e.viol("type-limit", nil, "resource type number %d was registered (limit %d)", ecs.MaskTotalBits+1, ecs.MaskTotalBits)
+		}
+		e.extraRes = true
 	}
 	return nil
 }
